@@ -281,7 +281,7 @@ func GenExpr(r *Rand) Expr {
 		u := Pick(r, ts)
 		// split_doc renumbers the documents in place; it is only drawn on its own
 		if u.family != "error" && t.family != "error" && u.family != "splitdoc" && t.family != "splitdoc" {
-			e = Expr{S: "(" + t.s + "), (" + u.s + ")", Family: t.family + "," + u.family, Preserving: t.preserving && u.preserving, Mutating: t.mutating || u.mutating, Total: exprTotal(t.s) && exprTotal(u.s)}
+			e = Expr{S: "(" + t.s + "), (" + u.s + ")", Family: t.family + "," + u.family, Preserving: t.preserving && u.preserving, Mutating: t.mutating || u.mutating, Total: exprTotal(t.s) && exprTotal(u.s) && !t.mutating && !u.mutating}
 			e.Alts = append(e.Alts, t.s, u.s)
 		}
 	}
